@@ -69,6 +69,8 @@ struct Task {
   bool started = false;
   int prio = 0;
   // Thread-local storage of this simulated thread (library built with -femulated-tls; see __wrap___emutls_get_address).
+  char scope[48];               // stack of 'L' (inside library code) / 'H' (inside harness code called from it)
+  int scope_sp = 0;
   std::vector<std::pair<void*, void*>> tls;                       // emutls control object -> this task's instance
   std::vector<std::pair<void (*)(void*), void*>> tls_dtors;      // registered through __cxa_thread_atexit
 };
@@ -195,10 +197,24 @@ uint64_t global_seq() { return g ? g->seq : g_seq_outside; }
 uint64_t next_seq() { return g ? ++g->seq : ++g_seq_outside; }
 void note_window(int) {}
 
-HarnessScope::HarnessScope() { if (in_task()) tsan_ignore_begin(); }
-HarnessScope::~HarnessScope() { if (in_task()) tsan_ignore_end(); }
-LibraryScope::LibraryScope() { if (in_task()) tsan_ignore_end(); }
-LibraryScope::~LibraryScope() { if (in_task()) tsan_ignore_begin(); }
+static void scope_push(char k) { Task* t = g->tasks[g->cur]; if (t->scope_sp < 48) t->scope[t->scope_sp] = k; t->scope_sp++; }
+static void scope_pop() { Task* t = g->tasks[g->cur]; if (t->scope_sp > 0) t->scope_sp--; }
+static bool in_library() { if (!in_task()) return false; Task* t = g->tasks[g->cur]; return t->scope_sp > 0 && t->scope_sp <= 48 && t->scope[t->scope_sp - 1] == 'L'; }
+HarnessScope::HarnessScope() { if (in_task()) { tsan_ignore_begin(); scope_push('H'); } }
+HarnessScope::~HarnessScope() { if (in_task()) { scope_pop(); tsan_ignore_end(); } }
+LibraryScope::LibraryScope() { if (in_task()) { tsan_ignore_end(); scope_push('L'); } }
+LibraryScope::~LibraryScope() { if (in_task()) { scope_pop(); tsan_ignore_begin(); } }
+
+static std::vector<std::pair<void (*)(void*), void*>>& lib_exit_handlers() { static std::vector<std::pair<void (*)(void*), void*>> v; return v; }
+int library_exit_handlers_registered() { return static_cast<int>(lib_exit_handlers().size()); }
+static int run_library_exit_handlers() {
+  // What exit() does for this part of the program: most recently registered first.  Runs on the main context, with
+  // ThreadSanitizer watching (the library's destructors are instrumented code) and no ordering against the tasks.
+  int n = 0;
+  auto& v = lib_exit_handlers();
+  while (!v.empty()) { auto h = v.back(); v.pop_back(); h.first(h.second); ++n; }
+  return n;
+}
 
 NoYield::NoYield() { if (in_task()) g->tasks[g->cur]->noyield++; }
 NoYield::~NoYield() { if (in_task()) g->tasks[g->cur]->noyield--; }
@@ -279,6 +295,7 @@ SchedResult run_tasks(const std::vector<std::function<void()>>& bodies, const Sc
       }
       break;
     }
+    if (cfg.exit_at_step >= 0 && res.steps == cfg.exit_at_step) res.exit_handlers_run += run_library_exit_handlers();
     Task* pick = nullptr;
     Task* lastt = (last >= 0 && s.tasks[last]->st == T_RUNNABLE) ? s.tasks[last] : nullptr;
     switch (cfg.chooser) {
@@ -547,6 +564,15 @@ void* __real___emutls_get_address(void* control);
 void* __wrap___emutls_get_address(void* control) {
   if (!sim::in_task()) return __real___emutls_get_address(control);
   return sim::detail::task_tls(control);
+}
+// Static destructors registered by library code (inside a task, in library scope) are kept here instead of being
+// handed to the C runtime; see run_library_exit_handlers().
+int __real___cxa_atexit(void (*fn)(void*), void* obj, void* dso);
+int __wrap___cxa_atexit(void (*fn)(void*), void* obj, void* dso) {
+  if (!sim::in_library()) return __real___cxa_atexit(fn, obj, dso);
+  sim::HarnessScope hs;
+  sim::lib_exit_handlers().emplace_back(fn, obj);
+  return 0;
 }
 int __real___cxa_thread_atexit(void (*fn)(void*), void* obj, void* dso);
 int __wrap___cxa_thread_atexit(void (*fn)(void*), void* obj, void* dso) {
